@@ -8,10 +8,10 @@ CHECK = {
     ],
     "units": [
         unit("raft-live", "raft", ["raft/c08_live_test.go"], "^TestVerif_C08_RaftLive$",
-             quick={"checks": 8000, "shards": 1, "cap": 600},
-             thorough={"checks": 30000, "shards": 16, "cap": 1800},
+             quick={"checks": 20000, "shards": 1, "cap": 600},
+             thorough={"checks": 60000, "shards": 16, "cap": 1800},
              no_ulimit=True,
              env=dict({"BAO_RAFT_DISABLE_MAP_POPULATE": "1"}, **({"VERIF_KNOWN": __import__("os").environ["C08_DEV_KNOWN"]} if "C08_DEV_KNOWN" in __import__("os").environ else {})),  # DEVHOOK
-             floors={"raft-live": {"nontrivial": 0.05}}),
+             floors={"raft-live": {"nontrivial": 0.04}}),
     ],
 }
